@@ -394,7 +394,8 @@ def run_case(case, ctx):
         for fname, val, want in (("0-d ndarray", np.asarray(float(arr[1])), ref_arr[1]), ("length-1 ndarray", np.array([float(arr[1])]), ref_arr[1:2])):
             try:
                 r0 = np.asarray(getattr(d, meth)(val), float)
-                ok0 = r0.size == 1 and (bool(np.all(np.abs(r0.ravel() - np.ravel(want)) <= 1e-12 * np.abs(np.ravel(want)) + 1e-300)) or bool(np.all(np.isnan(r0.ravel()) & np.isnan(np.ravel(want)))))
+                with np.errstate(all="ignore"):
+                    ok0 = r0.size == 1 and (bool(np.all(np.abs(r0.ravel() - np.ravel(want)) <= 1e-12 * np.abs(np.ravel(want)) + 1e-300)) or bool(np.all(np.isnan(r0.ravel()) & np.isnan(np.ravel(want)))) or bool(np.all(r0.ravel() == np.ravel(want))))  # (equal infinities: a density that is infinite at the location)
                 ctx.check("rel.forms", ok0, f"{fam}.{meth}: {fname} argument disagrees with the array", family=fam, method=meth, form=fname)
             except Exception as e:  # noqa: BLE001
                 ctx.check("rel.forms", False, f"{fam}.{meth}: {fname} argument raised {type(e).__name__}", family=fam, method=meth, form=fname, message=str(e)[:120])
